@@ -1,13 +1,279 @@
-import PolyVerif.Model.Seqhash
+import PolyVerif.Lemmas.SeqhashSpec
 /-
 C05 — Seqhash separates distinct molecules and follows the published v1 form.
+
+Stated over `hashSpec` (the model of `seqhash.Hash` with the arg-min least rotation, i.e. modulo
+C12) for EVERY digest function; collision-freeness of the digest is the explicit HYPOTHESIS
+`Function.Injective blake` of the separation theorems (satisfiable: see the toy digest at the
+end), never an axiom.  The rejection theorems hold for every rotation function (`hashWith rot`),
+hence also for the Booth-loop model.
+
+Strand-closed alphabet.  "Equal up to strand" is an equivalence only where reverse-complementing
+twice gives the sequence back; that fails for `U` (complemented to `A`) and `Z` (complemented to
+the zero rune), both of which `Hash` accepts.  `hash_inj` is therefore stated, in the
+double-stranded case, under the hypothesis that both normalised sequences are over the 15 codes
+`ACGTRYSWKMBDHVN` (`Iupac15`); `hash_inj_general` is the unconditional statement (some strand of
+one equals, up to rotation, some strand of the other).
 -/
 namespace PolyVerif.Props.C05
-open PolyVerif PolyVerif.Seqhash
+open PolyVerif PolyVerif.Seqhash PolyVerif.Transform PolyVerif.Spec
 
-theorem hex_length (bs : List UInt8) : (hex bs).length = 2 * bs.length := by
-  induction bs with
-  | nil => rfl
-  | cons b bs ih => simp [hex, List.flatMap_cons] at *; omega
+theorem hex_length (bs : List UInt8) : (hex bs).length = 2 * bs.length := Seqhash.hex_length bs
+
+/-! ### "the same molecule" -/
+
+/-- equal, or equal up to rotation when circular -/
+def SameUpToRotation (circ : Bool) (x y : Str) : Prop := if circ then IsRotation x y else x = y
+
+/-- the normalised sequences denote the same molecule: equal up to rotation when circular, and up
+to strand (reverse complement) when double-stranded -/
+def SameMolecule (x y : Str) (circ ds : Bool) : Prop :=
+  SameUpToRotation circ x y ∨ (ds = true ∧ SameUpToRotation circ x (revComp y))
+
+/-- the strands a declared molecule consists of -/
+def strands (ds : Bool) (x : Str) : List Str := if ds then [x, revComp x] else [x]
+
+theorem SameUpToRotation.refl (circ : Bool) (x : Str) : SameUpToRotation circ x x := by
+  cases circ
+  · exact rfl
+  · exact IsRotation.refl x
+
+theorem SameUpToRotation.symm {circ : Bool} {x y : Str} (h : SameUpToRotation circ x y) : SameUpToRotation circ y x := by
+  cases circ
+  · exact Eq.symm h
+  · exact IsRotation.symm h
+
+theorem SameUpToRotation.revComp {circ : Bool} {x y : Str} (h : SameUpToRotation circ x y) :
+    SameUpToRotation circ (revComp x) (revComp y) := by
+  cases circ
+  · exact congrArg Transform.revComp h
+  · exact Seqhash.IsRotation.revComp h
+
+/-- single-stranded canonical representatives coincide exactly on `SameUpToRotation` -/
+theorem canon_ss_eq_iff (circ : Bool) (x y : Str) :
+    canonSpec x circ false = canonSpec y circ false ↔ SameUpToRotation circ x y := by
+  cases circ
+  · exact Iff.rfl
+  · exact leastRotation_eq_iff
+
+/-- the double-stranded representative is the lesser of the two single-stranded ones -/
+theorem canon_ds (circ : Bool) (x : Str) :
+    canonSpec x circ true = lexMin (canonSpec x circ false) (canonSpec (revComp x) circ false) := by
+  cases circ <;> rfl
+
+/-- equal canonical representatives: some strand of one is, up to rotation, some strand of the other -/
+theorem canon_eq_strands {x y : Str} {circ ds : Bool} (h : canonSpec x circ ds = canonSpec y circ ds) :
+    ∃ x' ∈ strands ds x, ∃ y' ∈ strands ds y, SameUpToRotation circ x' y' := by
+  cases ds
+  · exact ⟨x, by simp [strands], y, by simp [strands], (canon_ss_eq_iff circ x y).1 h⟩
+  · rw [canon_ds, canon_ds] at h
+    rcases lexMin_eq_or (canonSpec x circ false) (canonSpec (revComp x) circ false) with ex | ex <;>
+    rcases lexMin_eq_or (canonSpec y circ false) (canonSpec (revComp y) circ false) with ey | ey <;>
+    rw [ex, ey] at h
+    · exact ⟨x, by simp [strands], y, by simp [strands], (canon_ss_eq_iff _ _ _).1 h⟩
+    · exact ⟨x, by simp [strands], revComp y, by simp [strands], (canon_ss_eq_iff _ _ _).1 h⟩
+    · exact ⟨revComp x, by simp [strands], y, by simp [strands], (canon_ss_eq_iff _ _ _).1 h⟩
+    · exact ⟨revComp x, by simp [strands], revComp y, by simp [strands], (canon_ss_eq_iff _ _ _).1 h⟩
+
+/-- on the strand-closed alphabet that is `SameMolecule` -/
+theorem sameMolecule_of_canon_eq {x y : Str} {circ ds : Bool}
+    (hx : ds = true → Iupac15 x) (hy : ds = true → Iupac15 y)
+    (h : canonSpec x circ ds = canonSpec y circ ds) : SameMolecule x y circ ds := by
+  obtain ⟨x', hx', y', hy', hs⟩ := canon_eq_strands h
+  cases ds
+  · simp only [strands, Bool.false_eq_true, ↓reduceIte, List.mem_singleton] at hx' hy'
+    subst hx'; subst hy'
+    exact Or.inl hs
+  · have rx := (hx rfl).rc_rc
+    have ry := (hy rfl).rc_rc
+    simp only [strands, ↓reduceIte, List.mem_cons, List.not_mem_nil, or_false] at hx' hy'
+    rcases hx' with rfl | rfl <;> rcases hy' with rfl | rfl
+    · exact Or.inl hs
+    · exact Or.inr ⟨rfl, hs⟩
+    · right; refine ⟨rfl, ?_⟩
+      have := hs.revComp; rwa [rx] at this
+    · left
+      have := hs.revComp; rwa [rx, ry] at this
+
+/-- conversely the same molecule has the same canonical representative (C04 at the level of `canonSpec`) -/
+theorem canon_eq_of_sameMolecule {x y : Str} {circ ds : Bool} (hy : ds = true → Iupac15 y)
+    (h : SameMolecule x y circ ds) : canonSpec x circ ds = canonSpec y circ ds := by
+  have rot : ∀ {u v : Str} (d : Bool), SameUpToRotation circ u v → canonSpec u circ d = canonSpec v circ d := by
+    intro u v d huv
+    cases circ
+    · exact congrArg (fun t => canonSpec t false d) huv
+    · exact canonSpec_of_isRotation huv d
+  rcases h with h | ⟨rfl, h⟩
+  · exact rot ds h
+  · rw [rot true h, canonSpec_revComp (hy rfl).rc_rc]
+
+/-! ### separation -/
+
+/-- the core: equal hashes under an injective digest force equal tags and equal canonical representatives -/
+theorem hash_inj_canon {blake : List UInt8 → List UInt8} (hb : Function.Injective blake)
+    {a b : Str} {ta tb : String} {ca da cb db : Bool} {h : Str}
+    (h₁ : hashSpec blake a ta ca da = .ok h) (h₂ : hashSpec blake b tb cb db = .ok h) :
+    ta = tb ∧ ca = cb ∧ da = db ∧ canonSpec (norm ta a) ca da = canonSpec (norm tb b) cb db := by
+  obtain ⟨acc₁, e₁⟩ := hashSpec_ok_iff.1 h₁
+  obtain ⟨acc₂, e₂⟩ := hashSpec_ok_iff.1 h₂
+  obtain ⟨htag, hhex⟩ := v1_injective (e₁.symm.trans e₂)
+  obtain ⟨rfl, rfl, rfl⟩ := tag_injective acc₁.type acc₂.type htag
+  refine ⟨rfl, rfl, rfl, ?_⟩
+  exact bytes_injective (acc₁.canon_ascii ca) (acc₂.canon_ascii ca) (hb (hex_injective hhex))
+
+/-- Two accepted inputs receive the same seqhash only if they denote the same molecule: same type,
+topology and strandedness, and normalised sequences equal up to rotation when circular and up to
+strand when double-stranded (double-stranded case on the strand-closed alphabet, see header). -/
+theorem hash_inj {blake : List UInt8 → List UInt8} (hb : Function.Injective blake)
+    {a b : Str} {ta tb : String} {ca da cb db : Bool} {h : Str}
+    (hcl : da = true → Iupac15 (norm ta a) ∧ Iupac15 (norm tb b))
+    (h₁ : hashSpec blake a ta ca da = .ok h) (h₂ : hashSpec blake b tb cb db = .ok h) :
+    ta = tb ∧ ca = cb ∧ da = db ∧ SameMolecule (norm ta a) (norm tb b) ca da := by
+  obtain ⟨rfl, rfl, rfl, hc⟩ := hash_inj_canon hb h₁ h₂
+  exact ⟨rfl, rfl, rfl, sameMolecule_of_canon_eq (fun hd => (hcl hd).1) (fun hd => (hcl hd).2) hc⟩
+
+/-- the unconditional form (any accepted letters, including `U` under DNA and `Z`): some strand of
+the one is, up to rotation, some strand of the other -/
+theorem hash_inj_general {blake : List UInt8 → List UInt8} (hb : Function.Injective blake)
+    {a b : Str} {ta tb : String} {ca da cb db : Bool} {h : Str}
+    (h₁ : hashSpec blake a ta ca da = .ok h) (h₂ : hashSpec blake b tb cb db = .ok h) :
+    ta = tb ∧ ca = cb ∧ da = db ∧
+      ∃ x ∈ strands da (norm ta a), ∃ y ∈ strands da (norm tb b), SameUpToRotation ca x y := by
+  obtain ⟨rfl, rfl, rfl, hc⟩ := hash_inj_canon hb h₁ h₂
+  exact ⟨rfl, rfl, rfl, canon_eq_strands hc⟩
+
+/-- completeness (with C04: hash partition = orbit partition): accepted inputs of the same declared
+kind that denote the same molecule receive the same seqhash — for every digest -/
+theorem hash_same_molecule (blake : List UInt8 → List UInt8) {a b : Str} {ty : String} {c d : Bool}
+    (ha : Accepted ty d (norm ty a)) (hb : Accepted ty d (norm ty b))
+    (hcl : d = true → Iupac15 (norm ty b))
+    (h : SameMolecule (norm ty a) (norm ty b) c d) :
+    hashSpec blake a ty c d = hashSpec blake b ty c d := by
+  rw [hashSpec_ok _ _ _ _ _ ha, hashSpec_ok _ _ _ _ _ hb, canon_eq_of_sameMolecule hcl h]
+
+/-! ### the published v1 form -/
+
+/-- the tag letters describe the declared molecule -/
+theorem tag_form (ty : String) (c d : Bool) :
+    tag ty c d = [if ty = "DNA" then 'D' else if ty = "RNA" then 'R' else 'P',
+                  if c then 'C' else 'L', if d then 'D' else 'S'] := rfl
+
+/-- on accepted input the value is `v1_`, the tag, `_`, and the hex digest of the bytes of the
+upper-cased canonical representative (least rotation and/or lesser strand) -/
+theorem hash_form (blake : List UInt8 → List UInt8) (s : Str) (ty : String) (c d : Bool)
+    (h : Accepted ty d (norm ty s)) :
+    hashSpec blake s ty c d =
+      .ok ("v1_".toList ++ tag ty c d ++ ['_'] ++ hex (blake (bytes (canonSpec (norm ty s) c d)))) :=
+  hashSpec_ok blake s ty c d h
+
+/-- the canonical representative spelled out -/
+theorem canon_form (t : Str) :
+    canonSpec t false false = t ∧ canonSpec t true false = leastRotation t ∧
+    canonSpec t false true = lexMin t (revComp t) ∧
+    canonSpec t true true = lexMin (leastRotation t) (leastRotation (revComp t)) := ⟨rfl, rfl, rfl, rfl⟩
+
+/-- a value is returned exactly on accepted input, and the model never panics -/
+theorem hash_ok_iff (blake : List UInt8 → List UInt8) (s : Str) (ty : String) (c d : Bool) :
+    (∃ h, hashSpec blake s ty c d = .ok h) ↔ Accepted ty d (norm ty s) := by
+  constructor
+  · rintro ⟨h, e⟩; exact (hashSpec_ok_iff.1 e).1
+  · intro h; exact ⟨_, hashSpec_ok blake s ty c d h⟩
+
+/-- with a 32-byte digest (BLAKE3-256) the value is 71 letters: 7 of prefix and tag, then 64
+lower-case hex digits -/
+theorem hex_len (blake : List UInt8 → List UInt8) (hlen : ∀ x, (blake x).length = 32)
+    {s : Str} {ty : String} {c d : Bool} {h : Str} (e : hashSpec blake s ty c d = .ok h) :
+    h.length = 71 ∧ h.take 7 = "v1_".toList ++ tag ty c d ++ ['_'] ∧
+      (h.drop 7).length = 64 ∧ ∀ x ∈ h.drop 7, x ∈ "0123456789abcdef".toList := by
+  obtain ⟨_, rfl⟩ := hashSpec_ok_iff.1 e
+  have ht := v1_take blake ty c d (canonSpec (norm ty s) c d)
+  refine ⟨by rw [v1_length, hlen], ht.1, ?_, ?_⟩
+  · rw [ht.2, Seqhash.hex_length, hlen]
+  · rw [ht.2]; exact hex_digits _
+
+/-! ### rejections (for every rotation function, so also for the Booth-loop model `hash`) -/
+
+/-- unknown molecule types are rejected with an error -/
+theorem reject_type (rot : Str → Option Str) (blake : List UInt8 → List UInt8) (s : Str) (ty : String) (c d : Bool)
+    (h : ty ≠ "DNA" ∧ ty ≠ "RNA" ∧ ty ≠ "PROTEIN") : hashWith rot blake s ty c d = .err := by
+  apply hashWith_err
+  intro hacc
+  rcases hacc.type with e | e | e
+  · exact h.1 e
+  · exact h.2.1 e
+  · exact h.2.2 e
+
+/-- a letter outside the type's alphabet (after upper-casing, and `U → T` under RNA) is rejected
+with an error -/
+theorem reject_letter (rot : Str → Option Str) (blake : List UInt8 → List UInt8) (s : Str) (ty : String) (c d : Bool)
+    (x : Char) (hx : x ∈ norm ty s)
+    (hbad : ((ty = "DNA" ∨ ty = "RNA") ∧ x ∉ nucleotideLetters) ∨ (ty = "PROTEIN" ∧ x ∉ proteinLetters)) :
+    hashWith rot blake s ty c d = .err := by
+  obtain ⟨h1, h2, h3⟩ := str_ne
+  apply hashWith_err
+  rintro (⟨hty, hl⟩ | ⟨hty, hl, _⟩)
+  · rcases hbad with ⟨_, hn⟩ | ⟨hp, _⟩
+    · exact hn (hl x hx)
+    · subst hp; rcases hty with e | e
+      · exact h2 e.symm
+      · exact h3 e.symm
+  · rcases hbad with ⟨hn, _⟩ | ⟨_, hn⟩
+    · subst hty; rcases hn with e | e
+      · exact h2 e.symm
+      · exact h3 e.symm
+    · exact hn (hl x hx)
+
+/-- double-stranded proteins are rejected with an error -/
+theorem reject_ds_protein (rot : Str → Option Str) (blake : List UInt8 → List UInt8) (s : Str) (c : Bool) :
+    hashWith rot blake s "PROTEIN" c true = .err := by
+  obtain ⟨h1, h2, h3⟩ := str_ne
+  apply hashWith_err
+  rintro (⟨e | e, _⟩ | ⟨_, _, e⟩)
+  · exact h2 e.symm
+  · exact h3 e.symm
+  · exact absurd e (by simp)
+
+/-- and those three are the only reasons for rejection -/
+theorem err_iff (blake : List UInt8 → List UInt8) (s : Str) (ty : String) (c d : Bool) :
+    hashSpec blake s ty c d = .err ↔ ¬ Accepted ty d (norm ty s) := by
+  constructor
+  · intro e ha
+    rw [hashSpec_ok _ _ _ _ _ ha] at e
+    cases e
+  · exact hashSpec_err blake s ty c d
+
+/-! ### non-vacuity -/
+
+/-- a toy digest that is injective: the identity -/
+def toyDigest : List UInt8 → List UInt8 := id
+
+theorem toyDigest_injective : Function.Injective toyDigest := fun _ _ h => h
+
+/-- the hypotheses of `hash_inj` are satisfiable on a non-trivial pair: a plasmid and a rotation of
+its reverse complement, declared circular double-stranded -/
+example : ∃ h, hashSpec toyDigest "AACG".toList "DNA" true true = .ok h ∧
+    hashSpec toyDigest "TTCG".toList "DNA" true true = .ok h :=
+  ⟨_, hashSpec_ok toyDigest _ _ _ _ (by decide), by
+    rw [hashSpec_ok toyDigest _ _ _ _ (by decide)]
+    congr 2⟩
+
+example : Iupac15 (norm "DNA" "AACG".toList) ∧ Iupac15 (norm "DNA" "TTCG".toList) := by decide
+example : SameMolecule "AACG".toList "TTCG".toList true true :=
+  Or.inr ⟨rfl, ⟨2, by decide⟩⟩
+/-- distinct molecules are separated: the conclusion of `hash_inj` can fail, so the theorem has content -/
+example : canonSpec "AACG".toList true true ≠ canonSpec "AACC".toList true true := by decide
+/-- the strand-closed hypothesis of `hash_inj` cannot be dropped: `U` is accepted under DNA and is
+complemented to `A`, so `AU` and `AT` (linear, double-stranded) have the same representative although
+neither is the other or the other's reverse complement; `hash_inj_general` is what holds there -/
+example : Accepted "DNA" true (norm "DNA" "AU".toList) ∧
+    canonSpec "AU".toList false true = canonSpec "AT".toList false true ∧
+    ¬ SameMolecule "AU".toList "AT".toList false true := by
+  refine ⟨by decide, by decide, ?_⟩
+  simp only [SameMolecule, SameUpToRotation, Bool.false_eq_true, ↓reduceIte, true_and]
+  decide
+example : Accepted "PROTEIN" false (norm "PROTEIN" "mkv*".toList) := by decide
+example : ¬ Accepted "DNA" false (norm "DNA" "ACGX".toList) := by decide
+/-- a digest of constant length 32 exists (hypothesis of `hex_len`) -/
+example : ∀ x : List UInt8, ((fun _ => List.replicate 32 (0 : UInt8)) x).length = 32 := fun _ => rfl
 
 end PolyVerif.Props.C05
